@@ -45,6 +45,17 @@ Theorem C20_baseline_compat : schema_compat gen_schema baseline_schema = true /\
 Proof. split; vm_compute; reflexivity. Qed.
 Print Assumptions C20_baseline_compat.
 
+(* nothing the pinned description has is lost: every message is still bound, and every field of it is still decoded at
+   its tag (a field or oneof alternative the bindings stop dispatching is dropped silently when decoding) *)
+Theorem C20_baseline_retained : schema_covers gen_schema baseline_schema = true.
+Proof. vm_compute. reflexivity. Qed.
+Print Assumptions C20_baseline_retained.
+Theorem C20_retained_meaning : forall (S R : schema) n r g,
+  schema_covers S R = true -> In (n, r) R -> In g r ->
+  exists d f, lookup_msg S n = Some d /\ lookup_field d (fd_tag g) = Some f.
+Proof. exact schema_covers_spec. Qed.
+Print Assumptions C20_retained_meaning.
+
 Theorem C20_compat_meaning : forall (S R : schema) n d r f g,
   schema_compat S R = true -> In (n, d) S -> lookup_msg R n = Some r -> In f d ->
   (lookup_field r (fd_tag f) = Some g -> same_wire f g) /\ (lookup_name r (fd_name f) = Some g -> fd_tag f = fd_tag g).
